@@ -54,8 +54,11 @@ def set_switch(th):
 
 
 def cfg_real(c, smooth=False):
+    from fractions import Fraction
     from score_analysis import BootstrapConfig
     ratio = c["ratio"][0] / c["ratio"][1] if c["method"] == "proportion" else None
+    if ratio is not None and c.get("ratio_form") == "fraction":
+        ratio = Fraction(c["ratio"][0], c["ratio"][1])          # an exact ratio: exactly floor(ratio * n) draws
     return BootstrapConfig(sampling_method=c["method"], smoothing=smooth, ratio=ratio,
                            stratified_sampling=None if c["strat"] == "none" else c["strat"])
 
@@ -89,6 +92,10 @@ def run_events(src_a, c, ids, cid, beh, script=None, np_seed=None, smooth=False,
                 # noise makes the values unrelated to the source: report dense ranks
                 vals = sorted(set(float(x) for x in list(smp.pos) + list(smp.neg)))
                 rk = {v: i for i, v in enumerate(vals)}
+                srcv = [float(x) for x in list(src.pos) + list(src.neg)] or [0.0]
+                lo_, hi_ = min(srcv), max(srcv)
+                B_ = 3.0 * (hi_ - lo_ + 1.0)
+                built["smooth_near_source"] = bool(all(lo_ - B_ <= v <= hi_ + B_ for v in vals))
                 built["sample"] = {"pos": [rk[float(x)] for x in smp.pos], "neg": [rk[float(x)] for x in smp.neg],
                                    "ep": int(smp.nb_easy_pos), "en": int(smp.nb_easy_neg),
                                    "sc": smp.score_class.value, "ec": smp.equal_class.value}
@@ -240,12 +247,13 @@ def run(ctx: core.Ctx):
             M = par["M"] if unbiased else 40
             cases.append({"kind": "history", "src": src_a, "cfg": c, "smooth": smooth, "M": M,
                           "np_seed": ctx.seed + 1000 * h})
-            src = sd.build(src_a, G)
-            inv = sd.inv_map(G, -2, 300)
+            Gh = [gamma.ident_u8(), gamma.ident_int(), G][h % 3] if smooth else G    # smoothing integer-typed scores
+            src = sd.build(src_a, Gh)
+            inv = sd.inv_map(Gh, -2, 300)
             np.random.seed(ctx.seed + 1000 * h + len(ev_big) % 997)
             for k in range(M):
                 ev_big += run_events(src_a, c, ids, cid, cid, smooth=smooth, accumulate=True,
-                                     src_obj=src, inv=inv)
+                                     src_obj=src, inv=inv, G=Gh)
             ev_big.append({"id": next(ids), "cid": cid, "beh": cid, "op": "EndHistory", "exc": "",
                            "conc": "ident", "m": M, "unbiased": unbiased})
     # sizes above the single-pass switch (dynamic -> single pass, Poisson multiplicities)
@@ -277,6 +285,18 @@ def run(ctx: core.Ctx):
             np.random.seed(ctx.seed + 5 * b)
             for k in range(3):
                 ev_big += run_events(src_a, c, ids, cid, cid, src_obj=src, inv=inv)
+    # exact (Fraction) ratios whose float image times n falls just below an integer (0.29 * 100 = 28.999...)
+    for b, ratio in enumerate([[29, 100], [57, 100], [7, 25]]):
+        src_a = {"pos": sorted(int(x) for x in rnd.randint(0, 250, 100)), "neg": sorted(int(x) for x in rnd.randint(0, 250, 100)),
+                 "ep": 0, "en": 0, "sc": "pos", "ec": ["pos", "neg"][b % 2]}
+        c = {"method": "proportion", "strat": "none", "ratio": ratio, "ratio_form": "fraction"}
+        cid = len(cases)
+        cases.append({"kind": "many_easy", "src": src_a, "cfg": c, "np_seed": ctx.seed + 3 * b})
+        src = sd.build(src_a, G)
+        inv = sd.inv_map(G, -2, 300)
+        np.random.seed(ctx.seed + 3 * b)
+        for k in range(2):
+            ev_big += run_events(src_a, c, ids, cid, cid, src_obj=src, inv=inv)
     # few scored samples, many easy ones: 'dynamic' must still resolve on the SCORED class sizes
     for b in range(2):
         src_a = {"pos": sorted(int(x) for x in rnd.randint(0, 40, 7)), "neg": sorted(int(x) for x in rnd.randint(0, 40, 5)),
